@@ -447,7 +447,12 @@ pub async fn run_case(
                     fail("C05/tip-moved-to-chain-with-invalid-block/spends-nonexistent-output".into(), "a block on the new chain spends an output that does not exist on that chain".into());
                 }
                 if !gt_dense(&nc) {
-                    fail("C05/tip-moved-to-chain-violating-ticket-density".into(), format!("tickets {:?}", nc.iter().map(|(b, _)| b.has_golden_ticket as u8).collect::<Vec<_>>()));
+                    // which window is short of tickets: the one ending at the new tip (the code checks that one), or
+                    // only windows in the interior of the adopted segment (the pinned code does not look at those)
+                    let n = nc.len();
+                    let tip_short = n >= 6 && nc[n - 6..].iter().filter(|(b, _)| b.has_golden_ticket).count() < 2;
+                    let which = if tip_short { "window-at-new-tip" } else { "interior-window-only" };
+                    fail(format!("C05/tip-moved-to-chain-violating-ticket-density/{}", which), format!("tickets {:?}", nc.iter().map(|(b, _)| b.has_golden_ticket as u8).collect::<Vec<_>>()));
                 }
             }
         }
@@ -616,6 +621,28 @@ pub fn cases(seed: u64, tier: &str) -> Vec<CaseSpec> {
         }
         let order: Vec<usize> = (0..parents.len()).collect();
         v.push(CaseSpec { specs, orders: vec![order], prune_after: [1u64, 2, 3][k % 3] });
+    }
+    // 2c. fork choice past the start-up phase with sparse golden tickets: a main chain of 6..9 blocks, then a fork of
+    //     two or more blocks that overtakes it by one; ticket bits are random and sparse, so the six-block windows
+    //     ending at the first and at the last fork block often differ in whether they hold two tickets
+    let ngt = if thorough { 160 } else { 40 };
+    for k in 0..ngt {
+        let m = 6 + (k % 4);
+        let back = 1 + (r.below(3) as usize); // how many main blocks the fork replaces
+        let f = m - back; // fork parent = main block index f-1 (f >= 3)
+        let mut parents: Vec<Option<usize>> = (0..m).map(|i| if i == 0 { None } else { Some(i - 1) }).collect();
+        for i in 0..back + 1 {
+            parents.push(if i == 0 { Some(f - 1) } else { Some(m + i - 1) });
+        }
+        let mut specs = attr(&mut r, &parents, None, false);
+        for (i, s) in specs.iter_mut().enumerate() {
+            s.tx = 1;
+            // dense enough at the start for the main chain to be acceptable, sparse later
+            s.gt = if i < 3 { r.coin(2, 3) } else { r.coin(2, 5) };
+            s.dt = if i >= m { 250 } else { 400 };
+        }
+        let order: Vec<usize> = (0..parents.len()).collect();
+        v.push(CaseSpec { specs, orders: vec![order], prune_after: 50 });
     }
     // 3. random larger trees: two or three competing branches growing in turns (repeated back-and-forth reorgs)
     let nrand = if thorough { 400 } else { 60 };
